@@ -21,3 +21,30 @@ Theorem C06_task_id_injective :
   make_id u l = make_id u' l' -> u = u' /\ l = l'.
 Proof. exact task_id_injective. Qed.
 Print Assumptions C06_task_id_injective.
+
+(* ---- single use of the preserve_context callable (Model/SingleUse.v) ---- *)
+Require Import Eliot.Model.SingleUse Eliot.Proofs.SingleUseProofs.
+
+(* for every schedule and any number of concurrently invoking threads, f runs at most once *)
+Theorem C06_once :
+  forall sched seen flag, List.length (ran (invoke sched flag seen)) <= 1.
+Proof. exact single_use_at_most_once. Qed.
+Print Assumptions C06_once.
+
+(* the first invocation to reach the guard runs f; no later one does *)
+Theorem C06_first_wins :
+  forall t r, invoke (t :: r) false [] = (t, Ran) :: invoke r true [t] /\ ran (invoke r true [t]) = [].
+Proof. exact single_use_first_wins. Qed.
+Print Assumptions C06_first_wins.
+
+(* every invoking thread gets an answer: it ran f or it raised TooManyCalls *)
+Theorem C06_every_call_answered :
+  forall sched flag seen t, In t sched -> ~ In t seen -> exists res, In (t, res) (invoke sched flag seen).
+Proof. exact invoke_results_complete. Qed.
+Print Assumptions C06_every_call_answered.
+
+(* a check-then-set flag instead of the lock lets two invocations run f *)
+Theorem C06_check_then_set_refuted :
+  exists sched, List.length (ran (invoke_check_then_set sched false [] [])) = 2.
+Proof. exact check_then_set_refuted. Qed.
+Print Assumptions C06_check_then_set_refuted.
